@@ -769,6 +769,39 @@ def run(ctx, rep):
         okd_model = bool(write_names)
     except (MIr.Raised, AnalysisError):
         okd_model = None
+    if okd_model is None or not write_names or not read_names:
+        # behaviour-based identification with concrete lists: which local answers `name in <local>` like the read list / the
+        # effective write list - every time it is asked (the view lives as long as the peer keeps its reference)
+        try:
+            RDc, WRc = ("ra", "rb"), ("wa", "wb")
+            asks = ("wb", "wa", "rb", "wb", "zz", "ra", "rb", "wa")
+
+            def profile(v_):
+                if not isinstance(v_, (tuple, list, set, frozenset, dict, str)) and not hasattr(v_, "__next__"):
+                    return None
+                try:
+                    return tuple(a_ in v_ for a_ in asks)
+                except TypeError:
+                    return None
+            want_r = tuple(a_ in RDc for a_ in asks)
+            want_w = tuple(a_ in WRc for a_ in asks)
+            none_ = tuple(False for a_ in asks)
+            envs = [MIr.call_function(probe, ["OBJ", RDc, w_], {"__max_iter__": 50}) for w_ in (None, WRc, ())]
+            profs = [{n_: profile(e_.get(n_)) for n_ in local_names} for e_ in envs]
+            read_c = {n_ for n_ in local_names if all(p_[n_] == want_r for p_ in profs)}
+            write_c = {n_ for n_ in local_names if profs[0][n_] == want_r and profs[1][n_] == want_w and profs[2][n_] == none_}
+            # a single-use iterator answers the first question only
+            oneshot = sorted(n_ for n_ in local_names if n_ not in read_c | write_c and
+                             any(hasattr(e_.get(n_), "__next__") for e_ in envs))
+            if read_c and (write_c or oneshot):
+                read_names, write_names = read_c, write_c | set(oneshot)
+                okd_model = bool(write_c) or None
+                rep.ob("R06.6", "restricted: the lists the view consults answer every question, not only the first", not oneshot,
+                       "read list: %s, write list: %s (containers)" % (sorted(read_c), sorted(write_c)) if not oneshot else
+                       "`%s` is a single-use iterator when the view class is created: the first `name in %s` consumes it and every "
+                       "later listed name is refused" % (oneshot[0], oneshot[0]), fr.loc, kind="model")
+        except (MIr.Raised, AnalysisError):
+            pass
     for hook, lst, op in (("_rpyc_getattr", read_names, "getattr"), ("_rpyc_setattr", write_names, "setattr")):
         m = methods.get(hook)
         if m is None:
